@@ -1,6 +1,11 @@
-"""C01 — a validator never attests twice in an epoch, and only for its duty epoch (spec/Attester.tla)."""
+"""C01 — a validator never attests twice in an epoch, and only for its duty epoch (spec/Attester.tla).
+
+Second block: the system-level half (spec/Vouch.tla = controller + scheduler + attester composed): the
+attester's environment assumption EnvWindow is a theorem of the composition under EnvLateness, and
+traces of the real controller on the real scheduler with the real attester are behaviours of it."""
 import json
 import os
+import threading
 import vf
 
 PID = "C01"
@@ -83,6 +88,130 @@ def scenarios(tier):
     return out
 
 
+# ---------------------------------------------------------------------------------------------
+# system level: spec/Vouch.tla, Scen_Vouch.tla, Trace_Vouch.tla, TestVerifVouch
+# ---------------------------------------------------------------------------------------------
+VOUCH_PKG = "./services/controller/standard"
+VOUCH_TEST = "TestVerifVouch"
+VOUCH_TRACE = ("Trace_Vouch", "Trace_Vouch.cfg")
+VOUCH_SLOT_MS = 240
+
+
+def vouch_driver(scenarios, tag):
+    return vf.run_driver(PID, VOUCH_PKG, VOUCH_TEST, scenarios, "vouch-" + tag, timeout=900)
+
+
+def vouch_sig(s):
+    # same keys as sig_of: a system-level scenario never matches the attester-level finding
+    return {"mode": "vouch", "strategy": "", "target_below_duty_epoch": False, "ft": s["steps"][0].get("ft")}
+
+
+def vouch_nontrivial(s, rows):
+    # the composition is exercised: a refresh withdrew a waiting job (cancel + re-schedule under the same
+    # name), the fast track started a job, or a job body outlived its slot
+    slow = bool(rows and rows[0].get("slow"))
+    return slow or any((r["ev"] == "Cancel" and r["ok"]) or r["ev"] == "Run" for r in rows)
+
+
+def _vouch_interest(h):
+    """reorgs that a later head event of the same epoch can show, head events, slow bodies"""
+    score, reorg_at = 0, None
+    half = 0
+    for st in h[1:]:
+        if st["ev"] in ("Phase", "Advance"):
+            half += 1
+            if st.get("slow"):
+                score += 2
+        elif st["ev"] == "Reorg":
+            reorg_at = half
+        elif st["ev"] == "Head":
+            score += 1
+            if reorg_at is not None and half - reorg_at <= 2:
+                score += 4
+                reorg_at = None
+    return score
+
+
+def vouch_scenarios(tier):
+    want = 8 if tier == "quick" else 72
+    hs = vf.tlc_scenarios(PID, "Scen_Vouch", "Scen_Vouch.cfg", num=want * 5, depth=700, name="scen-vouch",
+                          timeout=300 if tier == "quick" else 900)
+    # keep fast track on/off balanced, the most eventful first (stable: seeded)
+    on = sorted([h for h in hs if h[0]["ft"]], key=_vouch_interest, reverse=True)
+    off = sorted([h for h in hs if not h[0]["ft"]], key=_vouch_interest, reverse=True)
+    pick = []
+    while len(pick) < want and (on or off):
+        if on:
+            pick.append(on.pop(0))
+        if off and len(pick) < want:
+            pick.append(off.pop(0))
+    return [{"sc": 100001 + i, "kind": "vouch", "slotms": VOUCH_SLOT_MS, "tail": 3, "steps": h} for i, h in enumerate(pick)]
+
+
+def _expect_violation(cfg, inv, timeout=900):
+    """A configuration without the named assumption / with the named deviation must violate its invariant:
+    otherwise the model says nothing (broken run, never a verdict)."""
+    r = vf.tlc(PID, "mc-" + cfg.replace(".cfg", ""), "MC_Vouch", cfg, workers=4, timeout=timeout, heap="6g")
+    if r["timed_out"] or r["kind"] != "invariant" or r["violated"] != inv:
+        raise vf.Broken("%s should violate %s (vacuous model?): %s %s\n%s" % (cfg, inv, r["kind"], r["violated"], r["out"][-1500:]))
+    vf.log("TLC MC_Vouch/%s: %s violated as it must be (%d distinct states, %.1fs)" % (cfg, inv, r["distinct"], r["wall_s"]))
+    return r
+
+
+def vouch_model(tier, out):
+    """Exhaustive runs of the composition (in a thread beside the driver); results / exception into out."""
+    try:
+        res = [vf.tlc_exhaustive(PID, "MC_Vouch", "MC_Vouch.cfg", timeout=600)]
+        _expect_violation("MC_Vouch_late_window.cfg", "EnvWindowHolds")
+        _expect_violation("MC_Vouch_race.cfg", "CancelledNeverRuns")
+        if tier == "thorough":
+            res.append(vf.tlc_exhaustive(PID, "MC_Vouch", "MC_Vouch_big.cfg", timeout=1500))
+            res.append(vf.tlc_exhaustive(PID, "MC_Vouch", "MC_Vouch_fail.cfg", timeout=900))
+            res.append(vf.tlc_exhaustive(PID, "MC_Vouch", "MC_Vouch_noreduce.cfg", timeout=1500))
+            _expect_violation("MC_Vouch_late_sign.cfg", "NoDoubleSign")
+            _expect_violation("MC_Vouch_race_slot.cfg", "SlotOnce")
+            _expect_violation("MC_Vouch_race_pending.cfg", "PendingExact")
+            _expect_violation("MC_Vouch_byname.cfg", "TableExact")
+        out["mc"] = res
+    except BaseException as e:      # re-raised by the caller
+        out["err"] = e
+
+
+def vouch_conformance(v, sc):
+    # replay directories of this block are numbered from 101 (vf.conformance numbers from 1 per call)
+    orig = vf.save_replay
+    vf.save_replay = lambda pid, n, *a: orig(pid, n + 100, *a)
+    try:
+        vf.conformance(v, sc, vouch_driver, VOUCH_TRACE[0], VOUCH_TRACE[1], vouch_sig, vouch_nontrivial, dfs=True,
+                       tlc_timeout=900, chunk=12)
+    finally:
+        vf.save_replay = orig
+
+
+def run_vouch(v, tier):
+    v.assumptions += [
+        "EnvLateness (Vouch.tla, Late <= slots per epoch): whatever is on its way to attest for slot s - a ScheduleJob call, a waiting, "
+        "fired or claimed job, a marking loop - is through the marking loop by the end of slot s + Late; with it Env_Window is implied "
+        "by controller + scheduler (S2), without it TLC shows a job started outside the window and a second signature (MC_Vouch_late_*)",
+        "EnvNoOverlap, Env_TickBeforeHead (Vouch.tla): fetch / cancel / schedule sequences of one epoch do not overlap (open finding "
+        "C03-overlapping-refresh-stale-attester-jobs is outside the composition); the epoch ticker precedes the epoch's first head event",
+        "system-level traces: beacon node (duties, attestation data), accounts and signer are scripted; wall-clock chain time with "
+        "%d ms slots; the trace specification chooses its clock within the bounds the trace gives (no lateness is judged)" % VOUCH_SLOT_MS,
+    ]
+    out = {}
+    th = threading.Thread(target=vouch_model, args=(tier, out))
+    th.start()
+    try:
+        sc = vouch_scenarios(tier)
+        vouch_conformance(v, sc)
+    finally:
+        th.join()
+    if "err" in out:
+        raise out["err"]
+    for r in out["mc"]:
+        v.add_mc(r)
+
+
 def run(tier):
     v = vf.Verdict(PID, tier)
     v.assumptions = [
@@ -99,11 +228,15 @@ def run(tier):
     sc = scenarios(tier)
     vf.conformance(v, sc, driver, TRACE[0], TRACE[1], sig_of, nontrivial, dfs=True,
                    chunk=None if tier == "quick" else 600)
+    run_vouch(v, tier)
     v.coverage["rule"] = ("behaviours of Attester.tla generated by TLC simulation (seeded): multi-run histories on one "
                           "service instance (repeated / re-assigned duties, failures at every step), replayed gated "
                           "(interleaved at interface-call grain), free-running (concurrent marking loops) and behind the "
                           "real best/majority/first strategies; non-trivial = a validator delivered twice in an epoch or "
-                          "data violating the rule reached the service; distinct by step list and mode")
+                          "data violating the rule reached the service; distinct by step list and mode.  System level: environment "
+                          "parts (clock, head events, reorgs, slow attestation data, fast track on/off) of TLC-simulated behaviours "
+                          "of Vouch.tla replayed in real time on the real controller + real scheduler + real attester; non-trivial = "
+                          "a refresh withdrew a waiting job, the fast track started one, or a job body outlived its slot")
     return v.finish()
 
 
@@ -111,5 +244,8 @@ def replay(path):
     v = vf.Verdict(PID, "quick")
     with open(os.path.join(path, "scenario.json")) as fh:
         s = json.load(fh)
+    if s.get("kind") == "vouch":
+        vouch_conformance(v, [s])
+        return 1 if v.violations else 0
     vf.conformance(v, [s], driver, TRACE[0], TRACE[1], sig_of, nontrivial, dfs=True)
     return 1 if v.violations else 0
